@@ -108,6 +108,10 @@ def run(ctx, only=None):
         ctx.ob("R3", "decorator|%s|%s" % (obj.qualname, txt), s.loc(), "decorator @%s on %s %s" % (txt, obj.qualname, "keeps no state" if ok else why_not), ok)
     for fi, site in mutable_defaults(prog, LIB):
         ctx.ob("R3", "mutable-default|%s|%s" % (fi.qualname, site.text), site.loc(), "%s has a mutable default argument (%s): state shared across calls" % (fi.qualname, site.text), False)
+    from sa.effects import shared_class_attributes
+
+    for cname, attr, site_m, text in shared_class_attributes(prog, LIB):
+        ctx.ob("R3", "shared-class-attribute|%s.%s|%s" % (cname, attr, text), site_m.loc(), "%s.%s is a mutable object created once in the class body and changed in place (%s) without __init__ giving each instance its own: state shared by all calls and threads" % (cname, attr, text), False)
     ctx.ob("R3", "scan", "library modules", "decorators and default arguments of %d library functions scanned" % len([1 for q, f in prog.funcs.items() if f.mod.short in LIB]), True, nontrivial=False)
 
     # ---- R4 ambient reads from validators / verifiers
